@@ -129,6 +129,7 @@ const (
 	LexerRuneLit
 	LexerRuneEscaped
 	LexerHexEscape // inside \xHH, \uHHHH or \UHHHHHHHH of a string or rune literal
+	LexerMinusDot  // saw "-." where a signed number may start: -.5 or the operator - followed by a dot symbol
 )
 
 type Lexer struct {
@@ -697,6 +698,19 @@ top:
 			goto top // process the unknown rune r in Normal mode
 		}
 
+	case LexerMinusDot:
+		lexer.state = LexerNormal
+		if r >= '0' && r <= '9' {
+			_, err := lexer.buffer.WriteString("-." + string(r))
+			return err
+		}
+		// not a number after all: the operator -, then a dot that starts the next atom
+		lexer.AppendToken(lexer.Token(TokenSymbol, "-"))
+		if _, err := lexer.buffer.WriteRune('.'); err != nil {
+			return err
+		}
+		goto top
+
 	case LexerBuiltinOperator:
 		//Q("in LexerBuiltinOperator")
 		lexer.state = LexerNormal
@@ -706,6 +720,11 @@ top:
 		//vv("in LexerBuiltinOperator, first='%s', atom='%s', lexer.prevrune='%c'", first, atom, lexer.prevrune)
 		// are we a negative number -1 or -.1 rather than  ->, --, -= operator?
 		if lexer.prevrune == '-' && canStartSignedNumberAfter(lexer.preBuiltinRune) {
+			if r == '.' {
+				// -.5 is a number, but we only know after the next rune
+				lexer.state = LexerMinusDot
+				return nil
+			}
 			if FloatRegex.MatchString(atom) || DecimalRegex.MatchString(atom) {
 				//Q("'%s' is the beginning of a negative number", atom)
 				_, err := lexer.buffer.WriteString(atom)
